@@ -54,10 +54,21 @@ def kind(s):
 
 
 def run(ctx):
-    consts = gen_c20.generate()
-    ctx.notes.append('generated constants: %r' % consts)
+    guard0 = vf.build_cpp('c20_guard', [os.path.join(vf.VERIF, 'harness/cpp/c20_h.cc')] + SRC, sanitize=False)
+    try:
+        consts = gen_c20.generate(guard0)
+        ctx.notes.append('generated constants (derived from the behaviour of the compiled source): %r' % consts)
+        ctx.obligation('translator gen_c20 derived base and limits from the working tree', True, 'translator', repr(consts))
+    except Exception as e:
+        # keep going with the last generated (or the documented) constants so that the failing-input search still runs
+        ctx.obligation('translator gen_c20 derived base and limits from the working tree', False, 'translator', repr(e)[:300])
+        ctx.pending_broken = {'kind': 'translator', 'what': 'gen_c20 cannot derive the constants of FromString from the working tree: %r' % (e,)}
+        gen = os.path.join(vf.THEORIES, 'Generated', 'DataVersionConsts.v')
+        if not os.path.exists(gen):
+            vf.write_if_changed(gen, 'From Coq Require Import ZArith.\nOpen Scope Z_scope.\nDefinition strtol_base : Z := 10.\nDefinition major_max : Z := 255.\nDefinition minor_max : Z := 65535.\n')
     if not ctx.coq():
-        ctx.broken_proof()
+        if not getattr(ctx, 'pending_broken', None):
+            ctx.broken_proof()
     elif ctx.thorough and not ctx.coqchk():
         ctx.broken_proof('coqchk rejected the compiled development')
     model = vf.build_extracted('c20', 'C20', 'c20_driver.ml')
